@@ -96,8 +96,11 @@ def vary_tap_settings(cfg: Dict, rng: random.Random, mode_rng: Optional[random.R
             stages = [k for k, o in (s.get("kill_chain") or {}).items() if isinstance(o, dict) and "probability" in o]
             if stages:
                 s["kill_chain"][mode_rng.choice(sorted(stages))]["probability"] = 0
+        if t == "tap-003" and rng.random() < 0.7:
+            # several candidate start nodes: which one the seeded choice lands on must not depend on the process
+            s["starting_nodes"] = rng.sample(["ST_PROJ-A-PRV-PC-1", "ST_PROJ-B-PRV-PC-2", "ST_PROJ-C-PRV-PC-3"], rng.randint(2, 3))
         if t == "tap-001":
-            if rng.random() < 0.6:
+            if rng.random() < 0.8:
                 s["starting_nodes"] = rng.sample(["ST_PROJ-A-PRV-PC-1", "ST_PROJ-B-PRV-PC-2", "ST_PROJ-C-PRV-PC-3"], rng.randint(1, 3))
             prop = s["kill_chain"]["PROPAGATE"]
             prop["repeat_scan"] = rng.random() < 0.6
@@ -277,6 +280,9 @@ class Gen:
         servers = [n for n in names if hosts[n]["type"] == "server"] or names
         db_host = r.choice(servers)
         web_host = r.choice(servers)
+        if self.p.get("web_rich") and web_host == db_host and len(names) > 1:
+            # a web server that can reach its database (a host cannot connect to itself): 200 as well as 500 from /users
+            web_host = r.choice([n for n in names if n != db_host])
         dns_host = r.choice(servers)
         ftp_host = r.choice(servers)
         ntp_host = r.choice(servers)
@@ -349,9 +355,11 @@ class Gen:
                 svc(n, "ntp-client", {"ntp_server_ip": ip_of[ntp_host]})
             if self.chance(0.2):
                 svc(n, "ftp-client")
-            if self.chance(0.45):
+            if self.chance(0.85 if self.p.get("web_rich") else 0.45):
                 with_url = self.chance(0.8) or "browser_without_url" in self.avoid
-                app(n, "web-browser", {"target_url": f"http://{domain}/users/"} if with_url else {})
+                # web_rich (C10): pages that answer 200 without the database, 404, and /users (200 or 500 with the database's state)
+                path = r.choice(["users/", "users/", "", "nopage"]) if self.p.get("web_rich") else "users/"
+                app(n, "web-browser", {"target_url": f"http://{domain}/{path}"} if with_url else {})
             if self.chance(0.5):
                 pw_ok = self.chance(0.8)
                 o = {"db_server_ip": ip_of[db_host]}
@@ -942,6 +950,10 @@ class Gen:
         r = self.r
         hosts = self.inv["hosts"]
         hn = r.choice(list(hosts))
+        if self.p.get("web_rich"):
+            browsing = [x for x in hosts if hosts[x]["applications"].get("web-browser", {}).get("target_url")]
+            if browsing and self.chance(0.8):
+                hn = r.choice(browsing)
         h = hosts[hn]
         acts = [{"action": "do-nothing", "options": {}}]
         apps = [a for a in h["applications"] if a in ("web-browser", "database-client")] or ["web-browser"]
